@@ -112,6 +112,28 @@ impl Cell {
         matches!(self, Cell::Nil)
     }
 
+    /// Is Datum
+    ///
+    /// True if this cell, and everything it contains, could have been
+    /// produced by the reader. Procedures, macros and continuations have a
+    /// Cell form for printing only and cannot be turned back into values.
+    pub fn is_datum(&self) -> bool {
+        // an explicit work list: the native stack must not follow the nesting
+        let mut pending = vec![self];
+        while let Some(cell) = pending.pop() {
+            match cell {
+                Cell::Continuation | Cell::Macro | Cell::Procedure(_) => return false,
+                Cell::Pair(car, cdr) => {
+                    pending.push(cdr);
+                    pending.push(car);
+                }
+                Cell::Vector(vector) => pending.extend(vector.iter()),
+                _ => {}
+            }
+        }
+        true
+    }
+
     pub fn is_pair(&self) -> bool {
         matches!(self, Cell::Pair(_, _))
     }
